@@ -1,24 +1,35 @@
 ---- MODULE Trace_PagePool ----
 (* Validates recorded call/return histories of the real Ipc::Mem::PageStack against the P-layer PagePool.
    One ndjson line per history:
-     {"ev":[{"e":"c"|"r"|"a","p":fiber,"op":"pop"|"push","g":page or -1}, ...],   \* pop: g of "r" is the result, -1 = failed
+     {"ev":[{"e":"c"|"r"|"a","p":fiber,"op":"pop"|"push","g":page or -1,"w":n}, ...],
       "free":[pages free at the start], "hold":[[fiber,page], ...]}                \* pages held at the start
+     pop:  g of the "r" event is the result, -1 = failed.  push: g is the page.
+     w (call events of pop only; copied from the matching "r" event by checks/C53.py): the result this call is going
+       to return, -1 = it fails, -2 = the history ends before it returns.
    The internal steps (Fail/Claim/Take/Show/Count resp. ClaimTake/ShowCount) are inferred: a history is accepted
-   iff some placement of them between the calls and returns makes it a behaviour of PagePool.
+   iff some placement of them between the calls and returns makes it a behaviour of PagePool.  `want` only prunes
+   the search: a Take of another page than the one returned, a Fail of a pop that returns a page, or a Claim by a
+   pop that returns failure can never be followed by the logged return event, and a pop that never returns
+   influences the others only through its Claim.
    An abort event ("a": a failed assert() of the code) is never accepted. *)
 EXTENDS PagePool, TraceLib
-VARIABLES h, l
+VARIABLES h, l, want
 Range(s) == {s[i] : i \in 1..Len(s)}
-TInit == /\ h \in 1..NHist /\ l = 1
+TInit == /\ h \in 1..NHist /\ l = 1 /\ want = [p \in Proc |-> -2]
          /\ PInitWith(Range(Tr[h].free), [p \in Proc |-> {x[2] : x \in {y \in Range(Tr[h].hold) : y[1] = p}}])
 Ev == Events(h)[l]
 TCall == /\ l <= Len(Events(h)) /\ Ev.e = "c"
-         /\ IF Ev.op = "pop" THEN CallPop(Ev.p) ELSE CallPush(Ev.p, Ev.g)
+         /\ IF Ev.op = "pop" THEN CallPop(Ev.p) /\ want' = [want EXCEPT ![Ev.p] = Ev.w]
+                             ELSE CallPush(Ev.p, Ev.g) /\ UNCHANGED want
          /\ l' = l + 1 /\ h' = h
 TRet == /\ l <= Len(Events(h)) /\ Ev.e = "r"
         /\ IF Ev.op = "pop" THEN RetPop(Ev.p, Ev.g) ELSE RetPush(Ev.p, Ev.g)
-        /\ l' = l + 1 /\ h' = h
-TLin == /\ l <= Len(Events(h)) /\ \E p \in Proc : Lin(p) /\ UNCHANGED <<h, l>>
+        /\ l' = l + 1 /\ UNCHANGED <<h, want>>
+TLin == /\ l <= Len(Events(h)) /\ UNCHANGED <<h, l, want>>
+        /\ \E p \in Proc : \/ want[p] = -1 /\ Fail(p)
+                           \/ want[p] # -1 /\ Claim(p)
+                           \/ want[p] >= 0 /\ (Take(p, want[p]) \/ ClaimTake(p, want[p]))
+                           \/ Show(p) \/ Count(p) \/ ShowCount(p)
 TNext == TCall \/ TRet \/ TLin
 Mark == MarkAccepted(h, l)
 Inv == TypeOK /\ NoDoubleOwner /\ Conservation /\ CountSound /\ StrictCount /\ Quiescent
